@@ -36,7 +36,7 @@ func genC18(g *G) {
 		if taken[v.kind] >= perKind {
 			continue
 		}
-		val, _, _ := c18Build(v.kind, unhx(v.hex), atoi(v.aux))
+		val := genBuild(v.kind, unhx(v.hex), atoi(v.aux))
 		if val == nil {
 			continue // rejected inputs carry no shared value
 		}
@@ -55,6 +55,21 @@ func genC18(g *G) {
 			}
 		}
 	}
+}
+
+// genBuild: c18Build at GENERATION time. A library panic must not take the generator (and with it the whole run)
+// down: the value is reported as present, so that the operation is emitted, and the panic is reproduced — and
+// reported together with its input — when the operation runs under execCase's recover.
+type panickedAtGeneration struct{}
+
+func genBuild(kind string, w []byte, aux int) (val interface{}) {
+	defer func() {
+		if r := recover(); r != nil {
+			val = panickedAtGeneration{}
+		}
+	}()
+	v, _, _ := c18Build(kind, w, aux)
+	return v
 }
 
 // c18Pool: encodings of every structure kind (kind, wire bytes, auxiliary argument of the reader).
@@ -93,12 +108,16 @@ func c18Pool(g *G) []c18Val {
 		add("meta", hx(cat(mb, id.sg.sign(cat([]byte{7}, mb)))), "0")
 	}
 	for _, v := range vals[len(vals)-3:] { // the three fixtures above must be accepted and verify
-		val, _, _ := c18Build(v.kind, unhx(v.hex), 0)
+		val := genBuild(v.kind, unhx(v.hex), 0)
+		if _, crashed := val.(panickedAtGeneration); crashed {
+			continue // the operations on this value will report the panic with its input
+		}
 		if val == nil {
-			panic("harness: ordered-parts fixture of kind " + v.kind + " is not accepted")
+			count("c18-pool:ordered-parts-fixture-not-accepted:" + v.kind)
+			continue
 		}
 		if has, ok := verifySucceeds(val); !has || !ok {
-			panic("harness: ordered-parts fixture of kind " + v.kind + " does not verify")
+			count("c18-pool:ordered-parts-fixture-does-not-verify:" + v.kind)
 		}
 	}
 	// signed composites and small structures from the STRUCT generators (run on a scratch collector)
